@@ -24,7 +24,8 @@
 (*   - after an ErrorResponse in the extended protocol nothing is sent     *)
 (*     until Sync                                                           *)
 (*   - Bind / Describe / Execute of a name that does not resolve fail      *)
-(*   - a blank Query gets EmptyQueryResponse and ReadyForQuery             *)
+(*   - a blank Query gets EmptyQueryResponse (or, from a server without a  *)
+(*     parse function, an ErrorResponse) and ReadyForQuery                  *)
 (*   - every DataRow of a statement has the field count of its             *)
 (*     RowDescription                                                       *)
 (*   - nothing follows Terminate; the server closes only when the          *)
@@ -154,7 +155,9 @@ FRecv(e) ==
               \/ e.t \in {"S", "K"} /\ Go(cur)
               \/ e.t = "Z" /\ Go(St("idle"))
               \/ e.t = "E" /\ Go(St("closingZ"))        \* the session middleware refused
-         [] cur.s = "blank" -> e.t = "I" /\ Go(St("zdue"))
+         [] cur.s = "blank" ->
+              \/ e.t = "I" /\ Go(St("zdue"))
+              \/ e.t = "E" /\ Go(St("zdue"))   \* (a server that was given no parse function refuses every Query; PgConn knows which)
          [] cur.s = "q" ->
               \/ e.t = "T" /\ Go(Rows("qrows", e.n))
               \/ e.t = "D" /\ e.n = 0 /\ Go(Rows("qrows", 0))   \* no RowDescription: a statement without columns
